@@ -33,7 +33,9 @@ PROP = {
                   "identical to the evaluator's. "
                   "Tied to /repo by the stream `evalorder`: generated typed programs whose sub-expressions are calls to "
                   "logging functions with ids numbered in definition order, run on the interpreter, the VM and the VM with "
-                  "peephole optimisation; the model runs on the S-expression of the AST + elaboration the runtime itself "
+                  "peephole optimisation (a quarter of the programs have the body of `main` inside a function expression, an "
+                  "inner function or a capturing closure: the only code for which /repo executes peephole-optimised "
+                  "bytecode; those lie outside the model's fragment and are judged by the direct oracles only); the model runs on the S-expression of the AST + elaboration the runtime itself "
                   "produced; direct oracles independent of the model: engines agree, ids strictly increasing, no id twice, "
                   "unconditional ids exactly once.",
     "level_note": "proof (fragment L0/L1) + CC. Trusted: Lean kernel; the hand-written evaluator (validated by the stream); "
